@@ -289,22 +289,7 @@ func (c *Ctx) c08Reader() {
 			c.sample(map[string]string{"mutated_armor": string(t)})
 		}
 	}
-	// a source that fails ONCE at every offset and then recovers: the reader must report the failure
-	// and stay failed (it must not resume, lose a line silently, or end cleanly)
-	{
-		k1, _ := implArmor([][]byte{c.rng.bytes(130)}, nil)
-		for off := 0; off <= len(k1.acc); off++ {
-			src := newSrc(k1.acc, nil, false, off)
-			src.once = true
-			r := armor.NewReader(src)
-			_, err, sticky := drainReader(r, nil, 48, 4*len(k1.acc)+100)
-			in := map[string]int{"transient_fault_offset": off}
-			c.Oracle("failed-reader-stays-failed", sticky, "armor-not-sticky", in, "after a transient source failure the armor reader returned bytes or another result")
-			c.Oracle("source-failure-never-clean-eof", err != io.EOF, "armor-src-failure-lost", in, "a transient source failure was swallowed: de-armoring ended with a clean EOF")
-			c.note(fmt.Sprintf("rf-once:%d", off), true)
-			c.count("reader-transient-fault")
-		}
-	}
+	c.armorTransientSweep()
 	// source failing at every offset of a small armor
 	k, _ := implArmor([][]byte{c.rng.bytes(100)}, nil)
 	for off := 0; off <= len(k.acc); off++ {
@@ -330,4 +315,25 @@ func checkC08(c *Ctx) {
 	c.rule = "writer: random byte strings of sizes around 0/3/48/768/49152 x segmentations (whole, with empty writes, bytewise, steps 2..1000, random) incl. NO write at all; every destination write-call index failing once / for ever. reader: ALL texts header + up to 3 (quick) / 4 (thorough) lines over 24 line kinds (full, short, padded, empty, over-long, 65 columns, bad/mid padding, non-canonical bits, inner/trailing/leading space, inner CR, CR CR, PEM header, garbage, stray BEGIN/END) x {LF, CRLF} x {final newline or not} x {footer or not}; leading/trailing whitespace variants incl. Unicode spaces and the 1023/1024/1025 limits; mutations of valid armor; a source failing at every offset. distinct_nontrivial = distinct cases containing a BEGIN line (reader) or any writer case."
 	c.c08Writer()
 	c.c08Reader()
+}
+
+// armorTransientSweep: a source that fails ONCE at every offset and then
+// recovers: the armor reader must report the failure and stay failed (it must
+// not resume, lose a line silently, release bytes that are not a prefix, or
+// end cleanly).
+func (c *Ctx) armorTransientSweep() {
+	data := c.rng.bytes(130)
+	k1, _ := implArmor([][]byte{data}, nil)
+	for off := 0; off <= len(k1.acc); off++ {
+		src := newSrc(k1.acc, nil, false, off)
+		src.once = true
+		r := armor.NewReader(src)
+		out, err, sticky := drainReader(r, nil, 48, 4*len(k1.acc)+100)
+		in := map[string]int{"transient_fault_offset": off}
+		c.Oracle("failed-reader-stays-failed", sticky, "armor-not-sticky", in, "after a transient source failure the armor reader returned bytes or another result")
+		c.Oracle("source-failure-never-clean-eof", err != io.EOF, "armor-src-failure-lost", in, "a transient source failure was swallowed: de-armoring ended with a clean EOF")
+		c.Oracle("released-bytes-are-a-prefix", bytes.HasPrefix(data, out), "armor-non-prefix-after-fault", in, "bytes released around a transient source failure are not a prefix of the encoded data")
+		c.note(fmt.Sprintf("rf-once:%d", off), true)
+		c.count("reader-transient-fault")
+	}
 }
